@@ -56,6 +56,13 @@ def members_of(kind, min_size=0, max_size=5, none_p=False):
     )
 
 
+def op_lists(op, max_ops):
+    """histories: a mix of short ones (cheap, many) and long ones (Hypothesis's default list sizes are
+    geometric, which would leave histories of >= 10 ops rare)"""
+    lo = min(8, max_ops)
+    return st.one_of(st.lists(op, max_size=lo), st.lists(op, min_size=lo, max_size=max_ops))
+
+
 eid_literal = st.sampled_from(EID_ALPH)
 eid_ref = st.one_of(eid_literal, st.tuples(st.just("#"), st.integers(0, 11)).map(list))
 
